@@ -76,12 +76,38 @@ Theorem gen_leaves_other_functions : forall p i s c j, i <> j ->
 Proof. exact gen_at_others. Qed.
 Print Assumptions gen_leaves_other_functions.
 
+(* insn->data, the scratch pointer every engine uses (anchor: finish_func_interpretation / generate_icode
+   reset it): preparing a function for interpretation leaves none behind, MIR_copy_insn copies the
+   field, so the generator's working copy and the body an inlining caller receives are clean exactly
+   when the function is -- and therefore, after ANY history of interpretation and whole-function
+   generation of a function, in any order and any number of times, the function shows the original view,
+   is well formed, and both copies are clean (what build_func_cfg relies on). *)
+Theorem interpretation_leaves_no_data : forall f,
+  clean (insns (icode_prepare f)) /\ clean (insns (finish_interp f))
+  /\ (clean (insns f) -> icode_prepare f = f).
+Proof.
+  intros f. split; [apply icode_prepare_clean|]. split; [apply finish_interp_clean|apply icode_prepare_id].
+Qed.
+Print Assumptions interpretation_leaves_no_data.
+
+Theorem copies_clean_iff_function_clean : forall f base,
+  (clean (insns f) <-> clean (insns (dup f))) /\ (clean (insns f) <-> clean (inline_copy f base)).
+Proof. intros f base. split; [apply dup_working_copy_clean|apply inline_copy_clean]. Qed.
+Print Assumptions copies_clean_iff_function_clean.
+
+Theorem gen_and_interp_in_any_order : forall f ops,
+  wf f -> clean (insns f) ->
+  let f' := fold_left hstep ops f in
+  wf f' /\ view f' = view f /\ clean (insns (dup f')) /\ forall base, clean (inline_copy f' base).
+Proof. exact any_history_keeps_function. Qed.
+Print Assumptions gen_and_interp_in_any_order.
+
 (* ---- non-vacuity ---- *)
 Import ListNotations.
 Local Open Scope Z_scope.
 Definition ex_f : func :=
-  mkfunc [mkinsn 0 false 11 []; mkinsn 1 true 0 []; mkinsn 2 false 12 [1%nat; 4%nat];
-          mkinsn 3 false 13 []; mkinsn 4 true 0 []; mkinsn 5 false 14 []]
+  mkfunc [mkinsn 0 false 11 [] false; mkinsn 1 true 0 [] false; mkinsn 2 false 12 [1%nat; 4%nat] false;
+          mkinsn 3 false 13 [] false; mkinsn 4 true 0 [] false; mkinsn 5 false 14 [] false]
          [] [100; 101; 102] 0 [150]                       (* 150: a variable tied to a hard register *)
          [(100, 1%nat); (150, 2%nat); (101, 3%nat); (102, 4%nat)]   (* declared between 100 and 101 *)
          [mklref 1 (Some 4%nat) None None] 6 None None 4096.
@@ -95,11 +121,25 @@ Proof.
   - destruct H as [<-|[]]. cbn. intros x Hx. inversion Hx. auto.
   - destruct H as [<-|[]]. reflexivity.
   - destruct H as [<-|[]]. reflexivity.
+  - intros i [<-|[<-|[<-|[<-|[<-|[<-|[]]]]]]]; cbn; auto.
   - repeat constructor; cbn; intuition discriminate.
   - intros v [<-|[<-|[<-|[]]]]; cbn; auto.
   - repeat constructor; cbn; intuition discriminate.
   - intros p [<-|[<-|[<-|[<-|[]]]]]; cbn; auto with arith.
 Qed.
+Example ex_f_clean : clean (insns ex_f).
+Proof. apply clean_b_spec. reflexivity. Qed.
+(* the loop at the end of generate_icode is needed: without it (icode_mark alone, the code before /repo
+   e40fd49f) the generator's working copy and an inlined body carry the interpreter's data *)
+Example ex_stale_data_without_the_reset :
+  ~ clean (insns (dup (icode_mark ex_f))) /\ ~ clean (inline_copy (icode_mark ex_f) 100).
+Proof.
+  split; intros H; apply clean_b_spec in H; vm_compute in H; discriminate.
+Qed.
+Example ex_history :
+  let f' := fold_left hstep [HPrepare; HGen [EAddVar 200; ERemove 3] 8192; HPrepare; HGen [] 4; HFinishInterp] ex_f in
+  view f' = view ex_f /\ machine_code f' = Some 8192.
+Proof. vm_compute. split; reflexivity. Qed.
 Definition ex_script : list edit :=
   [EAddVar 200; EInsert 0 false 77 [7%nat]; ERemove 3; ERewrite 2 99 [10%nat]; EAddVar 100;
    EAddVar 201; EMove 1 4; ERetarget 0 10 None; EInsert 2 true 0 []].
